@@ -26,6 +26,9 @@ SCENARIOS = [
     ("fork", {"fork": 1}),
     ("shortpath", {"rpath": 1}),
     ("shortfile", {"rfile": 1}),
+    # relative program name + different working directory, with a decoy of the same name there
+    ("wdrel", {"progx": "702f78", "wdx": "656c73657768657265",
+               "_setup": "MKDIRS 70 ; LINKVC 0 78 right ; CHDIR 2e2e ; MKDIRS 656c736577686572652f70 ; LINKVC 0 78 wrong ; CHDIR 2e2e2f2e2e"}),
 ]
 
 PLAUSIBLE = {
@@ -59,10 +62,14 @@ def script_for(name, opts, faults, r, natural=False, tail=0):
     ftok = " ; ".join("F %d %s %d %d" % f for f in faults)
     o = dict(opts)
     o["ident"] = 1
+    setup = o.pop("_setup", None)
     s1 = start_tokens(0, o)
     parts = [pre]
     if ftok:
         parts.append(ftok)
+    if setup:
+        parts += ["N 0", setup, s1, (TAIL % s1) if tail == 0 else TAIL_NORESTART]
+        return " ; ".join(parts), mask
     if tail == 1:
         parts += ["N 0", s1, TAIL_NORESTART]
     elif tail == 2:
@@ -365,7 +372,10 @@ def judge(prop, case, log):
                     V("pid-not-forked-by-library@" + fk, "pid %d, forks %s" % (pid, forks))
                 if hellos and not m.get("fork"):
                     exe = bytes.fromhex(hellos[0]["exe"]).decode("utf-8", "replace")
-                    if not exe.endswith("/vc"):
+                    if m["scenario"] == "wdrel":
+                        if hellos[0].get("tag") != "right":
+                            V("wrong-program-executed@" + fk, "the relative program name was resolved to %s (tag %s), not to the one in the parent's working directory" % (exe, hellos[0].get("tag")))
+                    elif not exe.endswith("/vc"):
                         V("wrong-program-executed@" + fk, "executed %s" % exe)
         elif r < 0:
             obs["failed_starts"] += 1
